@@ -113,6 +113,22 @@ def well_formed(spec, cols, fixed_cols):
     return None
 
 
+def well_formed_columns(spec, fixed_cols):
+    """Columns the operation must declare as required (None when that is not a purely syntactic notion)."""
+    k = spec[0]
+    if k == "calc":
+        return set(cols_e(spec[2]))
+    if k == "proj":
+        return set(spec[1])
+    if k == "sel":
+        return set(cols_p(spec[1]))
+    if k == "sort":
+        return set().union(*[cols_e(e) for e, _ in spec[1]]) if spec[1] else set()
+    if k in ("dedup", "slice"):
+        return set()
+    return None
+
+
 def apply_spec(spec, rows, cols, fixed_rows, fixed_cols):
     k = spec[0]
     if k == "ident":
@@ -235,6 +251,32 @@ def run_case(case, stats):
             c = lnew.commute(current)
         except Exception as e:
             raise Violation("commute-raised", f"{type(e).__name__}: {e}; {ctx}", exc=e, pair=pair)
+        # asking again must give the same report, and asking must not change what the operation declares to need
+        try:
+            c2 = lnew.commute(current)
+
+            def dec_(op):
+                try:
+                    return None if op is None else from_lib(op, fixed)
+                except Undecodable:
+                    return repr(op)
+
+            same = (dec_(c2.first) == dec_(c.first)) and (dec_(c2.second) == dec_(c.second)) and (c2.done == c.done)
+        except Exception as e:
+            raise Violation("commute-raised", f"second call: {type(e).__name__}: {e}; {ctx}", exc=e, pair=pair)
+        if not same:
+            raise Violation(
+                "commute-not-repeatable",
+                f"two identical commute() calls report differently: first={c.first} second={c.second} done={c.done} vs first={c2.first} second={c2.second} done={c2.done}; {ctx}",
+                pair=pair,
+            )
+        want = well_formed_columns(new, fcols)
+        if want is not None and set(lnew.columns_required) != want:
+            raise Violation(
+                "operation-columns-changed",
+                f"after commute() the new operation declares columns_required={set(lnew.columns_required)}, it reads {want}; {ctx}",
+                pair=pair,
+            )
         if c.first is None:
             stats.c[f"matrix:{pair}:no-move"] += 1
             if not (c.second is current.operation or c.second == current.operation):
